@@ -1323,13 +1323,6 @@ impl System {
         }
         findings
     }
-
-    pub fn describe(&self) -> serde_json::Value {
-        serde_json::json!({
-            "outstanding": self.out.iter().map(|e| e.op.short()).collect::<Vec<_>>(),
-            "last": self.last,
-        })
-    }
 }
 
 /// Builds fresh objects and replays `steps`; checks only from step `check_from` on.
